@@ -48,6 +48,28 @@ def _bit_test(c):
     return None
 
 
+def _bit_test_general(c):
+    """(X, E) if the condition tests exactly bit E of X: (X >> A) & 2^k tests bit A + k, (X << A) & 2^k bit k - A, X & 2^k bit k (the mask a constant);
+    ("const", True/False) if it cannot depend on X at all ((..) | 1, (..) & 0); None for anything else."""
+    if c[0] == "cmp" and c[1] == "!=" and c[3] == ("const", 0):
+        c = c[2]
+    if c[0] == "bin" and c[1] == "|" and any(is_const(x) and isinstance(x[1], int) and x[1] != 0 for x in (c[2], c[3])):
+        return ("const", True)
+    if c[0] == "bin" and c[1] == "&":
+        for a, m in ((c[2], c[3]), (c[3], c[2])):
+            if is_const(m) and isinstance(m[1], int) and not isinstance(m[1], bool):
+                if m[1] == 0:
+                    return ("const", False)
+                if m[1] > 0 and m[1] & (m[1] - 1) == 0:
+                    k = m[1].bit_length() - 1
+                    if a[0] == "bin" and a[1] == ">>":
+                        return a[2], (a[3] if k == 0 else ("bin", "+", a[3], ("const", k)))
+                    if a[0] == "bin" and a[1] == "<<":
+                        return a[2], ("bin", "-", ("const", k), a[3])
+                    return a, ("const", k)
+    return _bit_test(c)
+
+
 def _mask_field(x):
     """getattr(self, 'DFxxx') or self.DFxxx -> field key."""
     if x[0] == "call" and x[2] == ("builtin", "getattr") and len(x[3]) >= 2 and x[3][0] == ("self",) and is_const(x[3][1]):
@@ -155,6 +177,12 @@ def _d2_by_algebra(eng, ctx, mb, T, sat_field, sig_field, cell_field, consumer_f
         o = sa.obj(env.get("self." + name)) if name else None
         return o if (o is not None and o.comp is not None) else None
 
+    for which in ("sat", "cell"):
+        nm_ = consumer_fields.get(which)
+        o_ = sa.obj(env.get("self." + nm_)) if nm_ else None
+        if o_ is not None and o_.comp is None:
+            ctx.bad("C09.D2", mb.qualname, f"self.{nm_}", expected="filled with one entry per set bit of its mask", found="created empty and never filled: every derived label lookup fails", **loc)
+            return {"decided": True, "recvs": {}, "labels": [], "gets": []}
     osat, ocell = built(consumer_fields.get("sat")), built(consumer_fields.get("cell"))
     if osat is None or ocell is None or osat.kind != "dict" or ocell.kind != "dict":
         return None
@@ -164,16 +192,29 @@ def _d2_by_algebra(eng, ctx, mb, T, sat_field, sig_field, cell_field, consumer_f
         return None
 
     def bit_of(c):
-        bt = _bit_test(c)
-        if bt is None:
+        bt = _bit_test_general(c)
+        if bt is None or bt[0] == "const":
             return None
         fld = _mask_field(bt[0])
         return (fld, bt[1]) if fld else None
+
+    def constant_test(conds):
+        """a recording condition that does not depend on any mask bit: every ID (or none) would be recorded"""
+        for c in conds:
+            bt = _bit_test_general(c)
+            if bt is not None and bt[0] == "const" and any(_mask_field(st) for st in sub2(c) if isinstance(st, tuple) and st):
+                return c, bt[1]
+        return None
 
     def gets_in(t):
         return [st for st in sub2(t) if isinstance(st, tuple) and st and st[0] == "call" and len(st) == 5 and st[2][0] == "attr" and st[2][2] == "get" and len(st[3]) >= 1]
 
     # ---- satellite map
+    for nf_ in (nsat, ncell):
+        ct = constant_test(nf_.conds)
+        if ct is not None:
+            ctx.bad("C09.D2", mb.qualname, "mask bit test", expected="labels recorded exactly for the set bits of the mask", found=f"`{show(ct[0])[:70]}` is {'always' if ct[1] else 'never'} true, whatever the mask holds", **loc)
+            return {"decided": True, "recvs": {}, "labels": [], "gets": []}
     if len(nsat.gens) != 1 or len(nsat.conds) != 1:
         return None
     bs = bit_of(nsat.conds[0])
